@@ -126,6 +126,11 @@ def factorings(base, rnd, limit):
                 pat = copy.deepcopy(base)
                 _set(pat, path, {"@z1": None, "p-arg1": leaf})
                 out.append(("param", [{"name": "@z1", "args": ["p-arg1"], "pattern": [body]}], pat))
+                if isinstance(leaf, str):
+                    # the usual YAML indentation: bindings BELOW the macro name ({"@z1": {"p-arg1": v}})
+                    pat2 = copy.deepcopy(base)
+                    _set(pat2, path, {"@z1": {"p-arg1": leaf}})
+                    out.append(("param_binding_below_name", [{"name": "@z1", "args": ["p-arg1"], "pattern": [copy.deepcopy(body)]}], pat2))
     # (e2) a repetition bound supplied through a macro argument (times: <formal>, min/max: <formal>)
     for path, sub in paths:
         if path and _in_list(path, base) and isinstance(sub, dict):
